@@ -45,8 +45,8 @@ def harness(tier, seed):
             viol.append(("symmetry-flag", info, f"is_symmetric={inst.is_symmetric}, matrix symmetric={sym}"))
         ub = sum(max(int(m[i, j]) for j in range(n) if j != i) for i in range(n))
         lb = sum(min(int(m[i, j]) for j in range(n) if j != i) for i in range(n))
-        if inst.tour_length_upper_bound != ub or inst.tour_length_lower_bound != lb:
-            viol.append(("bounds", info, f"bounds [{inst.tour_length_lower_bound}, {inst.tour_length_upper_bound}] expected [{lb}, {ub}]"))
+        # (the property asks that every tour lies within the instance's bounds - checked for all n! tours below -, not that
+        # the bounds are the sums of row minima / maxima; comparing them with lb / ub here would flag valid weaker bounds)
         obj = TourLength(inst)
         for p in itertools.permutations(range(n)):
             x = np.array(p)
